@@ -28,6 +28,11 @@ global size_of usize == 8;
 
 broadcast use {count_lemmas::lemma_count_true_all_false, axiom_vec_index_mut_usize};
 
+/// rule D6: an outlined loop body must not leave the loop early (`break` / `return` of the enclosing function)
+pub proof fn d6_loop_left_early()
+    requires false,      // @C11,C12,C13,C14,C15 d6.loop_visits_every_entry
+{}
+
 //@outline renet/src/channel/reliable.rs SendChannelReliable::get_packets_to_send loop=1 name=reliable_send_loop_body
 //@params message_id: u64, unacked_message: &mut UnackedMessage
 //@capture val resend_time: Duration = self.resend_time
@@ -100,7 +105,7 @@ broadcast use {count_lemmas::lemma_count_true_all_false, axiom_vec_index_mut_usi
                             rnew_pkts_ok(p0, packets@, seq0, channel_id, message_id, um0, current_time, resend_time, sm0),
                             *packet_sequence == seq0 + (packets@.len() - p0.len()),
                             packets@.len() - p0.len() <= __k1,
-                            packets_payload(packets@) + *available_bytes == packets_payload(p0) + avail0,
+                            packets_payload(packets@) + *available_bytes == packets_payload(p0) + avail0,   // @C14 send_loop.inv_slice_payload_equals_budget_consumed
                             *available_bytes <= avail0,
                             small_messages@ == sm0, *small_messages_bytes == smb0,
                             forall|k: int| p0.len() <= k < packets@.len() ==>
@@ -119,7 +124,7 @@ broadcast use {count_lemmas::lemma_count_true_all_false, axiom_vec_index_mut_usi
                         proof {
                             let pk = packets@.last();
                             assert(packets@.drop_last() =~= pkx);
-                            assert(rpkt_ok(pk, seq0 + (pkx.len() - p0.len()), channel_id, message_id, um0, current_time, resend_time));
+                            assert(rpkt_ok(pk, seq0 + (pkx.len() - p0.len()), channel_id, message_id, um0, current_time, resend_time));   // @C01,C03,C13,C15 send_loop.emitted_slice_is_unacked_due_and_cut_from_this_message
                             lemma_rnew_push(p0, pkx, pk, seq0, channel_id, message_id, um0, current_time, resend_time, sm0);
                             lemma_packets_payload_push(pkx, pk);
                             assert(pkx.push(pk) =~= packets@);
